@@ -142,7 +142,7 @@ class MinimalFile(object):
         if name is not None:
             object.__setattr__(self, "name", name)
 
-    def read(self, size):
+    def read(self, size=-1):
         return self._f.read(size)
 
     def seek(self, offset, whence=0):
